@@ -58,9 +58,12 @@ def scenario_of(sid, beh, rng):
             end = i
     acts = acts[:end + 1]
     # a START whose end lies beyond the simulated depth: drop it and what follows
-    for i, (n, a) in enumerate(acts):
-        if n == "Start" and not any(b and b[0] == a[0] and m in ("ObtainFails", "EndStart", "StartFailsLater") for (m, b) in acts[i + 1:]):
-            acts = acts[:i]
+    while True:     # (cutting one START may cut the end of an earlier, overlapping one)
+        for i, (n, a) in enumerate(acts):
+            if n == "Start" and not any(b and b[0] == a[0] and m in ("ObtainFails", "EndStart", "StartFailsLater") for (m, b) in acts[i + 1:]):
+                acts = acts[:i]
+                break
+        else:
             break
     if not any(n == "Start" for n, _a in acts):
         return None
